@@ -111,6 +111,7 @@ func randPubKeys(c *Ctx, k int) [][]byte {
 }
 
 func runC01(c *Ctx) {
+	c.Conc = true // stateless calls are also replayed from several goroutines at once
 	c.Prelude = []Event{{"op": "Config"}}
 	for net := 1; net <= len(nets); net++ {
 		full := c.Thorough() || net == 1+int(c.Seed)%len(nets)
@@ -162,6 +163,7 @@ func runC01(c *Ctx) {
 // ---------------------------------------------------------------------------- C02
 
 func runC02(c *Ctx) {
+	c.Conc = true // stateless calls are also replayed from several goroutines at once
 	c.Prelude = []Event{{"op": "Config"}}
 	r := c.Rng
 	// F1 (TLC-generated): strings with valid checksums over all version bytes x lengths
@@ -351,6 +353,7 @@ func hexLower(b []byte) string {
 // ---------------------------------------------------------------------------- C03
 
 func runC03(c *Ctx) {
+	c.Conc = true // stateless calls are also replayed from several goroutines at once
 	c.Prelude = []Event{{"op": "Config"}}
 	r := c.Rng
 	hashLens := []int{20, 24, 28, 32, 40, 48, 56, 64}
